@@ -229,9 +229,83 @@ func vpTarBytes(es []vpTarEntry) []byte {
 	return buf.Bytes()
 }
 
+// vpC27Pad: every world root lies 150 directories below a private temporary directory. One
+// path resolution follows at most 40 links, and no generated link target or name climbs more
+// than three levels, so even on a tree whose protections are broken nothing the extraction
+// does can leave that temporary directory; the snapshot covers it from the top. The deep
+// chain is built once per test process; each case gets a fresh world directory at its end.
+var (
+	vpC27Pad    = strings.Repeat("/p", 150)
+	vpC27TopDir string
+	vpC27Serial int
+)
+
+func vpC27Top(root string) string { return vpC27TopDir }
+
+// vpC27Cleanup removes the private temporary directory (deferred by every test function).
+func vpC27Cleanup() {
+	if vpC27TopDir != "" {
+		os.RemoveAll(vpC27TopDir)
+		vpC27TopDir = ""
+	}
+}
+
+// vpC27Drop removes one case's world.
+func vpC27Drop(root string) { os.RemoveAll(root) }
+
+// vpC27Rel makes snapshot paths readable: the padding and world directory become $ROOT.
+func vpC27Rel(root, s string) string {
+	rel := strings.TrimPrefix(strings.TrimPrefix(root, vpC27TopDir), "/")
+	return strings.ReplaceAll(s, rel, "$ROOT")
+}
+
+// vpC27PadStrays lists entries in the padding chain that do not belong there (anything but
+// the next "p", and at the bottom anything but the current world). The chain is descended
+// one component at a time relative to an open directory, so the cost is linear in its depth.
+func vpC27PadStrays(root string) []string {
+	var out []string
+	r, err := os.OpenRoot(vpC27TopDir)
+	if err != nil {
+		return []string{"cannot open the top of the padding: " + err.Error()}
+	}
+	world := filepath.Base(root)
+	for level := 0; ; level++ {
+		want := "p"
+		if level == 150 {
+			want = world
+		}
+		if d, err := r.Open("."); err == nil {
+			names, _ := d.Readdirnames(-1)
+			d.Close()
+			for _, n := range names {
+				if n != want {
+					out = append(out, fmt.Sprintf("created: %d level(s) above $ROOT: %s", 151-level, n))
+				}
+			}
+		}
+		if level == 150 {
+			r.Close()
+			return out
+		}
+		next, err := r.OpenRoot("p")
+		r.Close()
+		if err != nil {
+			return append(out, fmt.Sprintf("padding level %d vanished: %v", level, err))
+		}
+		r = next
+	}
+}
+
 func vpC27World() (root, dest string) {
-	root, _ = os.MkdirTemp("", "vpc27-")
-	root, _ = filepath.EvalSymlinks(root)
+	if vpC27TopDir == "" {
+		top, _ := os.MkdirTemp("", "vpc27-")
+		top, _ = filepath.EvalSymlinks(top)
+		os.MkdirAll(top+vpC27Pad, 0755)
+		vpC27TopDir = top
+	}
+	vpC27Serial++
+	root = fmt.Sprintf("%s%s/w%d", vpC27TopDir, vpC27Pad, vpC27Serial)
+	os.MkdirAll(root, 0755)
 	os.MkdirAll(filepath.Join(root, "outside", "sub"), 0755)
 	os.WriteFile(filepath.Join(root, "outside", "canary1"), []byte("canary-one"), 0644)
 	os.WriteFile(filepath.Join(root, "outside", "sub", "canary2"), []byte("canary-two"), 0600)
@@ -248,15 +322,16 @@ func vpC27Run(es []vpTarEntry, root, dest string, prepopulate bool) []string {
 	before := vpSnapshot(root, dest)
 	_ = filetransfer.UntarDirectory(bytes.NewReader(vpTarBytes(es)), dest)
 	after := vpSnapshot(root, dest)
-	return vpSnapshotDiff(before, after)
+	return append(vpSnapshotDiff(before, after), vpC27PadStrays(root)...)
 }
 
 func TestVP_C27_Untar(t *testing.T) {
+	defer vpC27Cleanup()
 	st := vp.NewStats("C27", "untar", "gzip-tar archives of 1-12 generated entries (regular, dir, symlink, hardlink, device/fifo) with names and link targets over {a,b,c,d,e,.,..,long,unicode}, traversal and absolute forms, and names routed through links created by earlier entries, extracted with UntarDirectory into a fresh or pre-populated destination; non-trivial = the archive contains a link entry followed by an entry whose path passes through it")
 	defer st.Flush()
 	rapid.Check(t, func(t *rapid.T) {
 		root, dest := vpC27World()
-		defer os.RemoveAll(root)
+		defer vpC27Drop(root)
 		es, through := vpTarGen(t, root)
 		pre := rapid.Bool().Draw(t, "prepopulated")
 		var desc []string
@@ -271,8 +346,31 @@ func TestVP_C27_Untar(t *testing.T) {
 	})
 }
 
+// vpC27Contained reports whether every absolute name or link target in the archive lies below
+// top (relative ones cannot leave it, see vpC27Pad). Archives that fail this are not run: on a
+// tree whose protections are broken they would write to the real filesystem.
+func vpC27Contained(data []byte, top string) bool {
+	gz, err := gzip.NewReader(bytes.NewReader(data))
+	if err != nil {
+		return true // not an archive the extractor will get anything out of
+	}
+	tr := tar.NewReader(gz)
+	for {
+		h, err := tr.Next()
+		if err != nil {
+			return true
+		}
+		for _, p := range []string{h.Name, h.Linkname} {
+			if filepath.IsAbs(p) && !strings.HasPrefix(filepath.Clean(p), top+"/") {
+				return false
+			}
+		}
+	}
+}
+
 // native fuzz target: raw archive bytes (thorough tier)
 func FuzzVP_C27_Archive(f *testing.F) {
+	f.Cleanup(vpC27Cleanup)
 	seeds := [][]vpTarEntry{
 		{{typ: tar.TypeSymlink, name: "d", link: "."}, {typ: tar.TypeSymlink, name: "d/e", link: ".."}, {typ: tar.TypeReg, name: "e/x", content: "p"}},
 		{{typ: tar.TypeDir, name: "a"}, {typ: tar.TypeReg, name: "a/f", content: "hello"}, {typ: tar.TypeLink, name: "h", link: "a/f"}},
@@ -283,10 +381,13 @@ func FuzzVP_C27_Archive(f *testing.F) {
 	}
 	f.Fuzz(func(t *testing.T, data []byte) {
 		root, dest := vpC27World()
-		defer os.RemoveAll(root)
+		defer vpC27Drop(root)
+		if !vpC27Contained(data, vpC27Top(root)) {
+			t.Skip("archive names an absolute path outside the private world")
+		}
 		before := vpSnapshot(root, dest)
 		_ = filetransfer.UntarDirectory(bytes.NewReader(data), dest)
-		if d := vpSnapshotDiff(before, vpSnapshot(root, dest)); len(d) > 0 {
+		if d := append(vpSnapshotDiff(before, vpSnapshot(root, dest)), vpC27PadStrays(root)...); len(d) > 0 {
 			t.Fatalf("VPFAIL C27 extraction changed things outside the destination: %v", d)
 		}
 	})
@@ -294,8 +395,9 @@ func FuzzVP_C27_Archive(f *testing.F) {
 
 // TestVPKnown_C27_chain replays the chained-symlink archive.
 func TestVPKnown_C27_chain(t *testing.T) {
+	defer vpC27Cleanup()
 	root, dest := vpC27World()
-	defer os.RemoveAll(root)
+	defer vpC27Drop(root)
 	es := []vpTarEntry{{typ: tar.TypeSymlink, name: "d", link: "."}, {typ: tar.TypeSymlink, name: "d/e", link: ".."}, {typ: tar.TypeReg, name: "e/sibling.txt", content: "overwritten", mode: 0644}}
 	if d := vpC27Run(es, root, dest, false); len(d) > 0 {
 		t.Fatalf("VPFAIL C27 %v", d)
